@@ -47,7 +47,8 @@ OUT_OF_REACH = ['GSS-API methods', 'hostbased auth from the hostile client '
 REQUIRED = ['histories', 'success_checked', 'refusal_checked',
             'clean_valid_admitted', 'preauth_probes', 'restriction_probes',
             'gated_histories', 'signature_defects', 'positive_logins',
-            'user_switches']
+            'user_switches', 'cert_logins', 'cert_refusals_expected',
+            'cert_admissions_expected']
 BUDGET_S = {'quick': 300, 'thorough': 3400}
 CASE_TIMEOUT_S = 60
 
@@ -149,6 +150,25 @@ def gen_cases(tier, seed):
                       'release': rng.choice(['fifo', 'lifo']),
                       'gate_begin': rng.random() < 0.7,
                       'chunk': 'all', 'cseed': rng.randrange(1 << 30)})
+
+    # certificate credentials: every way a certificate can be wrong
+    for i in range(240 if tier == 'quick' else 4000):
+        cases.append({
+            'kind': 'certgrid',
+            'principals': rng.choice([[], ['user'], ['other'],
+                                      ['x', 'user'], ['admin'],
+                                      ['admin', 'ops'], ['use*']]),
+            'ctype': rng.choice(['user'] * 7 + ['host']),
+            'validity': rng.choice(['ok'] * 6 + ['expired', 'future',
+                                                 'edge_past']),
+            'ca': rng.choice(['trusted'] * 6 + ['untrusted', 'plain_line']),
+            'entry_opt': rng.choice(['', '', 'principals="admin"',
+                                     'principals="admin,user"',
+                                     'principals="a*"',
+                                     'principals="!admin,*"']),
+            'source': rng.choice([None, None, None, 'ok', 'other']),
+            'login': rng.choice(['user', 'user', 'user', 'other']),
+            'cseed': rng.randrange(1 << 30)})
 
     npos = 14 if tier == 'quick' else 200
     kinds = ['password', 'ed25519', 'ecdsa', 'rsa', 'cert', 'agent',
@@ -657,6 +677,135 @@ async def _probe_restrictions(env, peer, acc, rec, mon, viol, steps):
                                f'steps={steps}'})
 
 
+# ------------------------------------------------------------------ certificates
+
+def _pat_match(patterns, values):
+    """OpenSSH pattern-list match of any value (negation wins)"""
+
+    import fnmatch
+    pats = patterns.split(',')
+    for v in values:
+        if any(p.startswith('!') and fnmatch.fnmatchcase(v, p[1:])
+               for p in pats):
+            continue
+        if any(not p.startswith('!') and fnmatch.fnmatchcase(v, p)
+               for p in pats):
+            return True
+    return False
+
+
+def _cert_expectation(case):
+    """True = must be admitted, False = must be refused, None = either"""
+
+    if case['ca'] != 'trusted':
+        return False           # CA unknown, or listed only as a plain key
+    if case['ctype'] != 'user':
+        return False
+    if case['validity'] in ('expired', 'future', 'edge_past'):
+        return False
+    if case['source'] == 'other':
+        return False
+    opt = case['entry_opt']
+    pr = case['principals']
+    if opt:
+        pats = opt.split('"')[1]
+        # principals= replaces the user-name check; a certificate without
+        # principals cannot satisfy it
+        return bool(pr) and _pat_match(pats, pr)
+    if not pr:
+        return None            # valid for any user in asyncssh; OpenSSH
+        #                        refuses it for authorized_keys CAs
+    # certificate principals are literal names, not patterns
+    return case['login'] in pr
+
+
+def _run_certgrid(case, mon, viol):
+    import time as _time
+    info = {}
+
+    async def main(loop):
+        ca = apps.host_key('ssh-ed25519', 60)
+        other_ca = apps.host_key('ssh-ed25519', 61)
+        ukey = apps.host_key('ssh-ed25519', 62)
+        now = int(_time.time())
+        va, vb = {'ok': (now - 3600, now + 3600),
+                  'expired': (now - 7200, now - 3600),
+                  'future': (now + 3600, now + 7200),
+                  'edge_past': (now - 7200, now - 1)}[case['validity']]
+        signer = other_ca if case['ca'] == 'untrusted' else ca
+        kw = dict(principals=case['principals'], valid_after=va,
+                  valid_before=vb)
+        if case['ctype'] == 'user':
+            if case['source']:
+                kw['source_address'] = ['127.0.0.0/8'] \
+                    if case['source'] == 'ok' else ['10.1.0.0/16']
+            cert = signer.generate_user_certificate(ukey, 'kid', **kw)
+        else:
+            cert = signer.generate_host_certificate(ukey, 'kid', **kw)
+        opts = ['cert-authority'] if case['ca'] != 'plain_line' else []
+        if case['entry_opt']:
+            opts.append(case['entry_opt'])
+        line = (','.join(opts) + ' ' if opts else '') + \
+            ca.export_public_key().decode()
+        granted = []
+
+        class Srv(asyncssh.SSHServer):
+            def connection_made(self, conn):
+                self.conn = conn
+
+            def begin_auth(self, username):
+                self.conn.set_authorized_keys(
+                    asyncssh.import_authorized_keys(line))
+                return True
+
+            def auth_completed(self):
+                granted.append(self.conn.get_extra_info('username'))
+
+        async with scen.Env(loop, server_factory=Srv, chunking='all',
+                            seed=case['cseed']) as env:
+            ok = None
+            try:
+                conn = await env.connect(username=case['login'],
+                                         client_keys=[(ukey, cert)])
+                ok = True
+                conn.close()
+                await conn.wait_closed()
+            except asyncssh.PermissionDenied:
+                ok = False
+            except (asyncssh.Error, OSError, ValueError) as exc:
+                ok = False
+                info['exc'] = repr(exc)[:120]
+            await env.settle()
+            mon['cert_logins'] += 1
+            exp = _cert_expectation(case)
+            info.update(granted=ok, expected=exp)
+            short = {k: v for k, v in case.items() if k != 'cseed'}
+            if exp is False:
+                mon['cert_refusals_expected'] += 1
+                if ok or granted:
+                    viol.append({
+                        'mechanism': 'invalid_certificate_admitted',
+                        'detail': f'login granted as {granted} with a '
+                                  f'certificate that must be refused: '
+                                  f'{short}'})
+            elif exp is True:
+                mon['cert_admissions_expected'] += 1
+                if not ok:
+                    viol.append({
+                        'mechanism': 'valid_credential_refused',
+                        'detail': f'certificate login refused: {short} '
+                                  f'{info.get("exc")}'})
+            if ok and granted != [case['login']]:
+                viol.append({'mechanism': 'granted_as_other_user',
+                             'detail': f'{granted} vs {case["login"]}'})
+            for e in env.san.drain():
+                viol.append({'mechanism': 'sanitizer_' + e['kind'],
+                             'detail': e})
+
+    scen.run(main)
+    return info
+
+
 # ------------------------------------------------------------------ positive leg
 
 def _run_positive(case, mon, viol):
@@ -814,6 +963,8 @@ def run_case(case):
     try:
         if case['kind'] == 'history':
             info = _run_history(case, mon, viol)
+        elif case['kind'] == 'certgrid':
+            info = _run_certgrid(case, mon, viol)
         else:
             info = _run_positive(case, mon, viol)
     except vloop.QuiescentHang as exc:
@@ -822,7 +973,8 @@ def run_case(case):
         viol.append({'mechanism': 'reference_peer_error',
                      'detail': repr(exc)})
 
-    nontrivial = mon['histories'] or mon['positive_logins']
+    nontrivial = mon['histories'] or mon['positive_logins'] or \
+        mon['cert_logins']
     seen = set()
     uniq = []
     for v in viol:
